@@ -404,13 +404,15 @@ func (m *Machine) selectOp(fr *frame, in *ssa.Select) Value {
 	if len(rd) == 0 && !in.Blocking {
 		pick = -1
 	} else {
-		if len(rd) == 0 && len(timerCases) == 0 {
+		if len(rd) == 0 && (len(timerCases) == 0 || !m.timerRace) {
+			// nothing ready: let the other goroutines run; time passes (a timer fires) only
+			// when nobody can run any more
 			m.block(func() bool { return len(ready()) > 0 }, "select")
 			rd = ready()
 			timerCases = nil
 		}
 		nalt := len(rd)
-		if m.P.TimerRace || len(rd) == 0 {
+		if m.timerRace || len(rd) == 0 {
 			nalt += len(timerCases)
 		}
 		k := m.choose(nalt, "select")
